@@ -106,6 +106,12 @@ def check_sql(q, impl, model):
         return bad
     ranks = [int(x) for x in M["rank"].split(",")]
     nulls = {i for i, v in enumerate(vals) if v == "null"}
+    # --- the six comparison kernels called directly (the optimizer may flip `<` into `>`)
+    if I.get("kern") != M.get("kern"):
+        ik, mk = (I.get("kern") or "").split(","), (M.get("kern") or "").split(",")
+        names = ["eq", "ne", "gt", "lt", "ge", "le"]
+        which = [names[k] for k in range(min(len(ik), len(mk), 6)) if ik[k] != mk[k]] or ["shape"]
+        bad.append(("model:kernel-" + which[0], "kernels %s differ: impl %s model %s" % (which, I.get("kern", "")[:120], M.get("kern", "")[:120])))
     # --- SQL `<` kernel vs model kernel
     if M["kernel"] == "yes":
         if I["lt"] in ("err", "panic"):
